@@ -86,6 +86,16 @@ Fixpoint six_ops (ops : list (qsetter * list N)) : Prop :=
   | (s, v) :: r => six s = true /\ usv_list v /\ six_ops r
   end.
 
+(* the Standard's six setters keep the invariants *)
+Theorem spec_six_sane shp s su v su' : six s = true -> sane su -> spec_step shp s su v = Some su' -> sane su'.
+Proof.
+  intros Hs S H. destruct (five s) eqn:H5; [exact (spec_five_sane shp s su v su' H5 S H)|].
+  destruct s; try discriminate Hs; try discriminate H5.
+  unfold spec_step in H. cbn [setter_of_q] in H.
+  destruct (spec_set shp SetProtocol su v) as [x|] eqn:E; [|discriminate H]. injection H as <-.
+  exact (spec_protocol_sane shp su v x S E).
+Qed.
+
 Definition corrS (dbg : bool) (shs : spec_host -> list N) (u : url) (su : spec_url) : Prop :=
   corr dbg shs u su /\ sane su.
 
